@@ -90,7 +90,8 @@ def _parse(out, res):
                 h = _STATE_HDR.match(lines[0])
                 body = []
                 for ln in lines[1:]:
-                    if ln.strip() == "" or ln.startswith(("Error:", "Finished", "The coverage", "<", "  line", "Back to state", "Progress", "State ")) or re.match(r"^\d+ states generated", ln):
+                    if ln.strip() == "" or ln.startswith(("Error:", "Finished", "The coverage", "<", "Back to state", "Progress", "State ")) \
+                            or re.match(r"^\s+\|*line \d+, col \d+", ln) or re.match(r"^\d+ states generated", ln):
                         break
                     body.append(ln)
                 try:
